@@ -140,7 +140,7 @@ def solver_part(tier, known):
   from vf.props import c12
   FUNCTIONS.extend(x for x in propbase.functions_of("stopping", e2_scenarios(tier)[0][0]) if x not in FUNCTIONS)
   n = 8 if tier == "quick" else 30
-  out = propbase.run(e2_specs(tier), known, c12.signature, jobs=8,
+  out = propbase.run(e2_specs(tier), known, c12.signature, jobs=8, pred_signatures={"late_stale": "race:timer-check-then-post"},
                      differential=lambda: harness.stopping_differential(dict(action="cancel_events", sources=2, times=1, other_source=True), n, seed=17))
   out["coverage"]["e2_bounds"] = [{"kwargs": k, "K": K} for k, K in e2_scenarios(tier)]
   return out
